@@ -3,6 +3,8 @@ package main
 // Static over-approximation of the heap keys a function may write (its inferred frame).
 
 import (
+	"sort"
+	"go/token"
 	"go/types"
 
 	"golang.org/x/tools/go/ssa"
@@ -185,6 +187,16 @@ func (e *Engine) instrMods(in ssa.Instruction, ms *ModSet, inLoop map[*ssa.Basic
 		}
 	case *ssa.Send:
 		ms.add(kiGhost("chanlog", "Int"))
+	case *ssa.Select:
+		for _, sc := range x.States {
+			if sc.Dir == types.RecvOnly {
+				ms.add(kiGhost("nrecv", "(Array Int Int)"))
+			}
+		}
+	case *ssa.UnOp:
+		if x.Op == token.ARROW {
+			ms.add(kiGhost("nrecv", "(Array Int Int)"))
+		}
 	case *ssa.Go:
 		// spawned goroutine: its effects are outside sequential reasoning (noted in evidence)
 	case *ssa.Call:
@@ -206,6 +218,12 @@ func (e *Engine) callMods(c *ssa.CallCommon, ms *ModSet, inLoop map[*ssa.BasicBl
 	if c.IsInvoke() {
 		if em := e.extInvoke(c); em != nil {
 			em.mods(ms, c)
+			return
+		}
+		if impls := e.closedImpls(c); impls != nil {
+			for _, f := range impls {
+				ms.union(e.modSetOf(f))
+			}
 			return
 		}
 		if !ms.All {
@@ -404,4 +422,54 @@ func (e *Engine) loopFrameInfo(li *loopInfo) *loopFrame {
 
 func visitedKey(rg *ssa.Range, mt *types.Map) KeyInfo {
 	return KeyInfo{Key: "GH!visited!" + sanitize(rg.Parent().Name()) + "!" + rg.Name(), VisitedOf: mt}
+}
+
+// closedImpls: for an invoke through an interface declared `closed` in the contracts, the methods
+// of every type of the loaded packages that implements it; nil otherwise.
+func (e *Engine) closedImpls(c *ssa.CallCommon) []*ssa.Function {
+	n, ok := types.Unalias(c.Value.Type()).(*types.Named)
+	if !ok || n.Obj().Pkg() == nil {
+		return nil
+	}
+	tc := e.cs.Types[fkey(n.Obj().Pkg().Path(), n.Obj().Name())]
+	if tc == nil || !tc.Closed {
+		return nil
+	}
+	key := n.Obj().Pkg().Path() + "." + n.Obj().Name() + "." + c.Method.Name()
+	if fs, ok := e.implCache[key]; ok {
+		return fs
+	}
+	iface := n.Underlying().(*types.Interface)
+	fs := []*ssa.Function{}
+	for _, p := range e.prog.AllPackages() {
+		var names []string
+		for m := range p.Members {
+			names = append(names, m)
+		}
+		sort.Strings(names)
+		for _, m := range names {
+			tm, ok := p.Members[m].(*ssa.Type)
+			if !ok {
+				continue
+			}
+			if _, isIface := tm.Type().Underlying().(*types.Interface); isIface {
+				continue
+			}
+			for _, t := range []types.Type{tm.Type(), types.NewPointer(tm.Type())} {
+				if !types.Implements(t, iface) {
+					continue
+				}
+				sel := e.prog.MethodSets.MethodSet(t).Lookup(c.Method.Pkg(), c.Method.Name())
+				if sel == nil {
+					continue
+				}
+				if f := e.prog.MethodValue(sel); f != nil {
+					fs = append(fs, f)
+				}
+				break // *T's method set includes T's
+			}
+		}
+	}
+	e.implCache[key] = fs
+	return fs
 }
